@@ -156,18 +156,20 @@ Definition std_english (ordinal : bool) (z : Z) : option text :=
   end.
 
 (* reading English back: a left-to-right fold over the words with (total, current group, sign) *)
+Definition ord_tens : list text := Eval vm_compute in map ordinal_word (t_ten std_tables).
+Definition ord_scales : list text := Eval vm_compute in map ordinal_word (t_triples std_tables).
 Definition word_small (w : text) : option N :=     (* one..nine, ten..nineteen, twenty..ninety and their ordinals *)
   match index_of w (t_one std_tables) 0 with Some i => Some (N.of_nat i) | None =>
   match index_of w (t_ordone std_tables) 0 with Some i => Some (N.of_nat i) | None =>
   match index_of w (t_teen std_tables) 0 with Some i => Some (10 + N.of_nat i)%N | None =>
   match index_of w (t_ordteen std_tables) 0 with Some i => Some (10 + N.of_nat i)%N | None =>
   match index_of w (t_ten std_tables) 0 with Some i => Some (10 * (2 + N.of_nat i))%N | None =>
-  match index_of w (map ordinal_word (t_ten std_tables)) 0 with Some i => Some (10 * (2 + N.of_nat i))%N | None => None
+  match index_of w ord_tens 0 with Some i => Some (10 * (2 + N.of_nat i))%N | None => None
   end end end end end end.
 Definition word_scale (w : text) : option nat :=
   match index_of w (t_triples std_tables) 0 with
   | Some i => Some i
-  | None => index_of w (map ordinal_word (t_triples std_tables)) 0
+  | None => index_of w ord_scales 0
   end.
 Record pstate := { p_total : N; p_cur : N; p_neg : bool; p_bad : bool }.
 Definition parse_step (st : pstate) (w : text) : pstate :=
